@@ -1,11 +1,14 @@
 #!/bin/sh
 # regenerates the generated parts of the contract files in /repo (parser, engine primitives)
 set -e
+R=${1:-/repo}
+export R
 python3 /verif/tools/gen_parser_contracts.py > /tmp/parser_contracts.txt
-(printf '//go:build verif\n\npackage ast\n\n// Contracts for package ast, read by /verif/govc (comment-only file, build tag verif).\n// The parser part is produced by /verif/tools/gen_parser_contracts.py.\n\n'; cat /tmp/parser_contracts.txt; if [ -f /verif/tools/ast_extra.txt ]; then cat /verif/tools/ast_extra.txt; fi; python3 /verif/tools/gen_keywords.py) > /repo/libvore/ast/zz_contracts_verif.go
+(printf '//go:build verif\n\npackage ast\n\n// Contracts for package ast, read by /verif/govc (comment-only file, build tag verif).\n// The parser part is produced by /verif/tools/gen_parser_contracts.py.\n\n'; cat /tmp/parser_contracts.txt; if [ -f /verif/tools/ast_extra.txt ]; then cat /verif/tools/ast_extra.txt; fi; python3 /verif/tools/gen_keywords.py) > $R/libvore/ast/zz_contracts_verif.go
 python3 /verif/tools/gen_engine_contracts.py > /tmp/engine_prims.txt
 python3 - <<'PY'
-p='/repo/libvore/engine/zz_contracts_verif.go'
+import os
+p=os.environ['R']+'/libvore/engine/zz_contracts_verif.go'
 s=open(p).read()
 marker='// ---- VM primitives:'
 tail_marker='// ---- statements of the process language'
